@@ -39,7 +39,7 @@ static bool inv(C& c)
         return false;
     if (!vf_wf_umap(M))
         return false;
-    if (c.m_used_size > n || M.m_size != c.m_used_size || M.m_reserved < n)
+    if (c.m_used_size > n || M.m_size != c.m_used_size || !M.guaranteed(n))
         return false;
     size_t cur = L.m_pool[0].next, keyed = 0;
     bool   seen_keyed = false;
